@@ -589,6 +589,10 @@ func (pk *Pkg) injectAndRecheck(w *World) error {
 			label = strings.TrimSpace(name[i+6:])
 			name = strings.TrimSpace(name[:i])
 		}
+		if i := strings.Index(name, "@"); i >= 0 {
+			// FUNC@TAG: a further unit over the same function (e.g. one per dynamic type of a parameter)
+			name = strings.TrimSpace(name[:i])
+		}
 		fd := pk.FuncDecls[name]
 		if fd == nil {
 			return fmt.Errorf("%s:%d: contract for unknown function %q", c.File, c.Line, c.Name)
